@@ -1,6 +1,7 @@
 package main
 
 import (
+	"go/types"
 	"fmt"
 	"go/token"
 	"strings"
@@ -251,7 +252,7 @@ func runC04(c *Ctx, w *World, r *Report) {
 			if !ok || ind.Step != 1 {
 				badR = "search value is not a counting loop variable"
 			} else {
-				x, cc, ok := asShiftRight(fa.AtomValueOfLin(ind.FirstLin))
+				x, cc, ok := asShiftRightAcc(fa.AtomValueOfLin(ind.FirstLin))
 				if !ok || cc != 32 || x != ssa.Value(fn.Params[1]) {
 					badR = "search values start at " + ind.FirstLin.String() + ", expected from>>32"
 				}
@@ -271,7 +272,7 @@ func runC04(c *Ctx, w *World, r *Report) {
 							}
 							okTo := L.K == 1 && len(L.T) == 1
 							for a2, coef := range L.T {
-								x, cc, ok := asShiftRight(fa.AtomValue(a2))
+								x, cc, ok := asShiftRightAcc(fa.AtomValue(a2))
 								if !ok || cc != 32 || coef != 1 || x != ssa.Value(fn.Params[2]) {
 									okTo = false
 								}
@@ -480,4 +481,29 @@ func init() {
 		Quick:   []Config{cfgDefault, cfg386}, Thorough: []Config{cfgDefault, cfg386},
 		Run: runC04,
 	})
+}
+
+// asShiftRightAcc: x >> c, written out or through a one-line accessor of the library whose whole body is
+// `return p >> c` (PathBits(p) for p>>32).
+func asShiftRightAcc(v ssa.Value) (ssa.Value, int, bool) {
+	if x, c, ok := asShiftRight(v); ok {
+		return x, c, true
+	}
+	call, ok := stripConv(v).(*ssa.Call)
+	if !ok {
+		return nil, 0, false
+	}
+	f := call.Common().StaticCallee()
+	if f == nil || len(f.Blocks) != 1 || len(f.Params) != 1 || len(call.Common().Args) != 1 {
+		return nil, 0, false
+	}
+	ret, ok := f.Blocks[0].Instrs[len(f.Blocks[0].Instrs)-1].(*ssa.Return)
+	if !ok || len(ret.Results) != 1 || len(f.Blocks[0].Instrs) != 2 {
+		return nil, 0, false
+	}
+	x, c, ok := asShiftRight(ret.Results[0])
+	if !ok || x != ssa.Value(f.Params[0]) || !types.Identical(ret.Results[0].Type(), f.Params[0].Type()) {
+		return nil, 0, false
+	}
+	return call.Common().Args[0], c, true
 }
